@@ -12,6 +12,7 @@ import os
 import time
 import traceback
 
+from . import kinds
 from .model import AnalysisError, CallGraph, Model, Typer
 
 ROOT = os.path.dirname(os.path.dirname(os.path.abspath(__file__)))
@@ -179,8 +180,10 @@ def report(prop, tier, seed, outcomes, errors, ctx, t0, extra=None, assumptions=
     for o, i in (viol + kn)[:10]:
         samples.append(i.as_json(o.rule))
     cov = {
-        "explanation": "static decision of the named structural clauses on every path of the current source "
-                       "(ast only; no repository code imported or run). Rules: "
+        "explanation": "static decision of the named structural clauses from the current source (ast only; no repository "
+                       "code imported or run). Each rule is tagged S (structural / dataflow analysis), T (decision table: "
+                       "abstract evaluation over every cell of a finite abstract domain) or W (abstract scenarios on "
+                       "stand-in worlds; bounded) in per_rule[].method. Rules: "
                        + "; ".join(f"{o.rule}: {o.text}" for o in outcomes),
         "evaluations": max(n_inst, 0),
         "distinct_nontrivial": len(keys),
@@ -188,7 +191,7 @@ def report(prop, tier, seed, outcomes, errors, ctx, t0, extra=None, assumptions=
                 "(rule, construct, abstract fact) keys; non-trivial = the rule had something to decide there",
         "samples": samples[:40],
         "exhaustive": all(o.exhaustive for o in outcomes) if outcomes else False,
-        "per_rule": [{"rule": o.rule, "instances": len(o.instances), "floor": o.floor,
+        "per_rule": [{"rule": o.rule, "method": kinds.method(o.rule), "instances": len(o.instances), "floor": o.floor,
                       "violations": sum(1 for i in o.instances if i.verdict == BAD),
                       "undecided": sum(1 for i in o.instances if i.verdict == UNDECIDED),
                       "exhaustive_over_finite_domain": o.exhaustive, "notes": o.notes} for o in outcomes],
